@@ -135,6 +135,14 @@ def point_trace(m, path, fr, env, outcome, value, exc):
     path.oblige(m.oblname("level_1_tile_at_depth_1"), z3.BoolVal(bool(okp)), kind="trace", assume_after=False)
     if not okp:
         return
+    # the tile is the one the level-1 table of the REQUESTED system has at that position: same corners, same orientation
+    table = m.spec_value("_create_level1_tiles(coordsys)", fr.entry_env)
+    mine = [t for t in table.items if t.get("pos").get("x") == px and t.get("pos").get("y") == py]
+    from .toastsample import _tg_same_corners, _tg_same
+    same = (len(mine) == 1 and _tg_same_corners(m, [m.getitem(value.get("corners"), k) for k in range(4)], mine[0].get("corners"))
+            and _tg_same(value.get("increasing"), mine[0].get("increasing")))
+    path.oblige(m.oblname("level_1_tile_has_the_corners_and_orientation_of_the_requested_system"), z3.BoolVal(bool(same)),
+                kind="trace", assume_after=False)
     lon = fr.entry_env.lookup("lon")
     pi = z3.RealVal(str(PI.numerator)) / z3.RealVal(str(PI.denominator))
     q = z3.Int(fresh_name("q"))
